@@ -74,8 +74,13 @@ func genN(t *rapid.T) int {
 
 // TestPropShardFunction: range, determinism, agreement with the reference.
 func TestPropShardFunction(t *testing.T) {
+	stats.Check(t, stats.N(100000, 2000000), propShardFunction())
+}
+
+// propShardFunction: the property of TestPropShardFunction (shared with the native fuzz target FuzzShardFunction).
+func propShardFunction() func(t *rapid.T) {
 	sub := stats.NewSub("shard-function", "rapid: upstream name (DNS-like, arbitrary bytes, arbitrary unicode, fixed pool) x shard count N in [1, 2^20]; oracle: GetShardID in [0,N), equal on a second call, equal to an independent FNV-1a-32 mod N; non-trivial = N >= 2 and name non-empty; distinct by FNV-64 of (name, N)")
-	stats.Check(t, stats.N(100000, 2000000), func(t *rapid.T) {
+	return func(t *rapid.T) {
 		name := genName(t, "name")
 		n := genN(t)
 		got := rlutil.GetShardID(name, n)
@@ -95,7 +100,13 @@ func TestPropShardFunction(t *testing.T) {
 		if want := refShard(name, n); got != want {
 			t.Fatalf("GetShardID(%q, %d) = %d, reference FNV-1a-32 mod N = %d", name, n, got, want)
 		}
-	})
+
+	}
+}
+
+// FuzzShardFunction: the same property driven by Go's coverage-guided fuzzer (thorough tier): the fuzzer's bytes are rapid's bit stream, so every input comes from the same generators and is judged by the same oracle.
+func FuzzShardFunction(f *testing.F) {
+	f.Fuzz(rapid.MakeFuzz(propShardFunction()))
 }
 
 // ---- gateway side: real clientSets synced from a scripted /ratelimit/endpoints ----------------------
